@@ -73,6 +73,14 @@ func (l *EventsLoader) LoadAndVerify(ctx context.Context, rawEvents []json.RawMe
 			Error: errs[i],
 		}
 	}
+	// ReverseTopologicalOrdering drops repeated copies of the same event, so fewer
+	// events than inputs may be left: report the surplus inputs as duplicates
+	// rather than returning results with neither an event nor an error.
+	for i := len(events); i < len(results)-len(errs); i++ {
+		results[i] = EventLoadResult{
+			Error: fmt.Errorf("gomatrixserverlib: duplicate event in input"),
+		}
+	}
 	// at this point, the three slices look something like:
 	// results: [ _ , _ , _ , err1 , err2 ]
 	// errs: [ err1, err2 ]
